@@ -1139,7 +1139,16 @@ func sample(sp *progen.Spec, inj *progen.Injector, ref *progen.Ref, sc *scenario
 func (rn *runner) scenarios(ref *progen.Ref, sp *progen.Spec, rnd *progen.Rand, thorough bool, pr *PkgReg, inj, nonce string, seed uint64) []scenario {
 	faultFree := scenario{name: "fault-free", plan: simrt.Plan{CancelStep: -1}, kind: "fault_free"}
 	switch rn.job.Property {
-	case "C01", "C02", "C03":
+	case "C01":
+		// "in every execution": also the ones in which another provider fails or the caller
+		// cancels - a provider that is entered at all is entered after its producers, with their values
+		out := []scenario{faultFree}
+		out = append(out, failPlans(ref, sp, rnd, thorough)...)
+		if len(ref.AsyncAll) > 0 {
+			out = append(out, rn.cancelPlans(ref, pr, inj, nonce, seed, thorough, true)...)
+		}
+		return out
+	case "C02", "C03":
 		return []scenario{faultFree}
 	case "C05":
 		if len(ref.AsyncFree) == 0 || len(ref.AsyncAll) < 2 {
